@@ -261,6 +261,15 @@ pub fn features() -> Vec<(&'static str, Vec<Item>)> {
                 ]),
             )],
         ),
+        (
+            "forward-declaration",
+            vec![
+                c("Fwd", vec![], vec![], None),
+                c("Fwd", vec![ti("w")], vec![], Some(vec![f(Ty::Int, "width", id("w"))])),
+                def("r8", vec![CRef::with("Fwd", vec![int(8)])], Some(vec![f(Ty::Int, "twice", bang("!add", vec![id("width"), int(1)]))])),
+                def("fwduser", vec![], Some(vec![f(Ty::Int, "viaf", E::Field(Box::new(E::ClassVal("Fwd".into(), vec![int(2)], vec![])), "width".into()))])),
+            ],
+        ),
         ("operators", vec![def("ops", vec![], Some(operator_fields()))]),
         ("assert-dump", vec![Item::Assert { cond: bang("!eq", vec![id("gi"), int(3)]), msg: s("msg") }, Item::Dump(E::Paste(Box::new(s("text")), Box::new(id("gs"))))]),
         (
@@ -326,11 +335,17 @@ pub fn valid_programs(pairs: bool, mut f: impl FnMut(&Program, &str) -> bool) {
         let wrappers: Vec<usize> = if wrappable { vec![0, 1, 5, 6] } else { vec![0] };
         for w in wrappers {
             let wrapped = wrap_block(w, body.clone());
-            for layout in 0..2 {
+            for layout in 0..3 {
                 let p = if layout == 0 {
                     let mut all = library();
                     all.extend(wrapped.clone());
                     Program { files: vec![("a.td".into(), all)] }
+                } else if layout == 2 {
+                    // a diamond: the library is included directly and again through mid.td
+                    let mut root = vec![Item::Include("inc.td".into()), Item::Include("mid.td".into())];
+                    root.extend(wrapped.clone());
+                    let mid = vec![Item::Include("inc.td".into()), def("mid0", vec![a_of(vec![int(9)])], None)];
+                    Program { files: vec![("a.td".into(), root), ("inc.td".into(), library()), ("mid.td".into(), mid)] }
                 } else {
                     let mut root = vec![Item::Include("inc.td".into())];
                     root.extend(wrapped.clone());
